@@ -351,33 +351,44 @@ Proof.
 Qed.
 
 (* ------------------------------------------------------------------ get_marks *)
-Theorem get_marks_eq_pointwise (its : list item) (i : nat) :
-  (i < length (marking its []))%nat ->
-  get_marks its i = without_unmarks (marks_at_elem its i).
+Fixpoint total_w (m : list pent) : N :=
+  match m with [] => 0 | e :: t => p_w e + total_w t end.
+
+Lemma gm_walk_at_pos m : forall index end_,
+  end_ <= index -> index < end_ + total_w m ->
+  exists e, gm_walk m index end_ = Some e /\ p_set e = at_pos m (index - end_).
 Proof.
-  intros H. unfold get_marks, marks_at_elem.
-  destruct (nth_error (marking its []) i) eqn:E; [reflexivity|].
-  apply nth_error_None in E. lia.
+  induction m as [|e t IH]; intros index end_ Hle Hlt; cbn [gm_walk at_pos total_w] in *; [lia|].
+  destruct (index <? end_ + p_w e) eqn:E.
+  - apply N.ltb_lt in E. replace (index - end_ <? p_w e) with true by (symmetry; apply N.ltb_lt; lia).
+    exists e. split; reflexivity.
+  - apply N.ltb_ge in E. replace (index - end_ <? p_w e) with false by (symmetry; apply N.ltb_ge; lia).
+    destruct (IH index (end_ + p_w e)) as (e' & E1 & E2); [lia|lia|].
+    exists e'. split; [exact E1|]. rewrite E2. f_equal. lia.
 Qed.
 
-(* with unit widths (the code point encoding of single characters) the element index IS the text index *)
-Lemma at_pos_unit m : Forall (fun e => p_w e = 1) m ->
-  forall i, at_pos m (N.of_nat i) = match nth_error m i with Some e => p_set e | None => [] end.
+(* get_marks(p) at a text index p inside the text (any encoding: the widths are whatever the elements
+   have) is the pointwise marking at p *)
+Theorem get_marks_eq_pointwise (its : list item) (p : N) :
+  p < total_w (marking its []) ->
+  get_marks its p = without_unmarks (marks_at_pos its p).
 Proof.
-  induction 1 as [|e t He _ IH]; intros i; [destruct i; reflexivity|].
-  cbn [at_pos]. rewrite He. destruct i as [|i].
-  - reflexivity.
-  - replace (N.of_nat (S i) <? 1) with false by (symmetry; apply N.ltb_ge; lia).
-    replace (N.of_nat (S i) - 1) with (N.of_nat i) by lia. apply IH.
+  intros H. unfold get_marks, marks_at_pos.
+  destruct (gm_walk_at_pos (marking its []) p 0) as (e & E1 & E2); [lia|lia|].
+  rewrite E1, E2, N.sub_0_r. reflexivity.
 Qed.
 
-Theorem get_marks_eq_pointwise_unit (its : list item) (i : nat) :
-  Forall (fun e => p_w e = 1) (marking its []) -> (i < length (marking its []))%nat ->
-  get_marks its i = without_unmarks (marks_at_pos its (N.of_nat i)).
+(* past the end the answer is the set of the marks still open at the end of the text *)
+Lemma gm_walk_past m : forall index end_, end_ + total_w m <= index -> gm_walk m index end_ = None.
 Proof.
-  intros U H. rewrite get_marks_eq_pointwise by exact H. unfold marks_at_pos, marks_at_elem.
-  rewrite at_pos_unit by exact U. reflexivity.
+  induction m as [|e t IH]; intros index end_ H; cbn [gm_walk total_w] in *; [reflexivity|].
+  replace (index <? end_ + p_w e) with false by (symmetry; apply N.ltb_ge; lia). apply IH. lia.
 Qed.
+
+Theorem get_marks_past_end (its : list item) (p : N) :
+  total_w (marking its []) <= p ->
+  get_marks its p = without_unmarks (current (final_open its)).
+Proof. intros H. unfold get_marks. rewrite gm_walk_past by lia. reflexivity. Qed.
 
 (* ------------------------------------------------------------------ equality tests are sound *)
 Lemma scalar_eqb_sound a b : scalar_eqb a b = true -> a = b.
@@ -626,12 +637,6 @@ Qed.
 (* ------------------------------------------------------------------ expand: one mark on plain text *)
 Definition pos_char (it : item) : Prop := exists id w s, it = IChar id true w s /\ 0 < w.
 
-Fixpoint cw_sum (l : list item) : N :=
-  match l with
-  | [] => 0
-  | IChar _ true w _ :: t => w + cw_sum t
-  | _ :: t => cw_sum t
-  end.
 Fixpoint last_char (l : list item) (d : option opid) : option opid :=
   match l with
   | [] => d
@@ -648,15 +653,15 @@ Definition ow (o : option N) : N := match o with Some x => x | None => 0 end.
 
 (* the insert query walks over characters that lie before the target without stopping *)
 Lemma walk_chars target l : forall rest idx lw lvc,
-  Forall pos_char l -> idx + ow lw + cw_sum l <= target ->
-  exists idx', idx' + ow (last_w l lw) = idx + ow lw + cw_sum l /\
+  Forall pos_char l -> idx + ow lw + items_len l <= target ->
+  exists idx', idx' + ow (last_w l lw) = idx + ow lw + items_len l /\
     iq_run target (l ++ rest) (mkIq idx lw false lvc []) =
     iq_run target rest (mkIq idx' (last_w l lw) false (last_char l lvc) []).
 Proof.
   induction l as [|it t IH]; intros rest idx lw lvc Hp Hle.
   - exists idx. cbn. split; [lia|reflexivity].
   - inversion Hp as [|? ? Hit Ht]; subst. destruct Hit as (id & w & s & -> & Hw).
-    cbn [cw_sum] in Hle. cbn [app iq_run last_w last_char cw_sum].
+    cbn [items_len] in Hle. cbn [app iq_run last_w last_char items_len].
     unfold iq_step, take_width. cbn [iq_lastw iq_index iq_done iq_lvc iq_cands].
     destruct lw as [x|]; cbn [ow] in *.
     + replace (target <=? idx + x) with false by (symmetry; apply N.leb_gt; lia).
@@ -667,7 +672,7 @@ Proof.
       exists idx'. split; [cbn [ow] in E1; lia|exact E2].
 Qed.
 
-Lemma cw_sum_pos l : Forall pos_char l -> l <> [] -> 0 < cw_sum l.
+Lemma items_len_pos l : Forall pos_char l -> l <> [] -> 0 < items_len l.
 Proof.
   intros H Hn. destruct l as [|it t]; [congruence|]. inversion H as [|? ? Hit _]; subst.
   destruct Hit as (id & w & s & -> & Hw). cbn. lia.
@@ -736,24 +741,24 @@ Qed.
    itself when the mark expands before, otherwise the last character in front of it (or the head) *)
 Theorem anchor_start_boundary pre b xb n v c w s rest :
   Forall pos_char pre -> 0 < w ->
-  anchor (cw_sum pre) (pre ++ IBegin b xb n v :: IChar c true w s :: rest) =
-  Some (if xb then b else match last_char pre None with Some l => l | None => head_id end, cw_sum pre).
+  anchor (items_len pre) (pre ++ IBegin b xb n v :: IChar c true w s :: rest) =
+  Some (if xb then b else match last_char pre None with Some l => l | None => head_id end, items_len pre).
 Proof.
   intros Hp Hw. unfold anchor. destruct pre as [|p0 pre'].
-  - cbn [cw_sum app last_char]. change (0 =? 0) with true. cbv iota.
+  - cbn [items_len app last_char]. change (0 =? 0) with true. cbv iota.
     rewrite iq_run_cons, step_after. cbn [fst snd].
     rewrite iq_run_cons, step_after. cbn [fst snd spot].
     destruct xb; cbn [app]; unfold take_width; cbn [iq_lastw iq_index iq_done iq_lvc iq_cands negb rev app]; reflexivity.
   - set (pre := p0 :: pre') in *. assert (Hne : pre <> []) by discriminate.
-    pose proof (cw_sum_pos pre Hp Hne) as Hpos.
-    replace (cw_sum pre =? 0) with false by (symmetry; apply N.eqb_neq; lia). cbv iota.
-    destruct (walk_chars (cw_sum pre) pre (IBegin b xb n v :: IChar c true w s :: rest) 0 None None Hp) as (idx' & E1 & E2);
+    pose proof (items_len_pos pre Hp Hne) as Hpos.
+    replace (items_len pre =? 0) with false by (symmetry; apply N.eqb_neq; lia). cbv iota.
+    destruct (walk_chars (items_len pre) pre (IBegin b xb n v :: IChar c true w s :: rest) 0 None None Hp) as (idx' & E1 & E2);
       [cbn [ow]; lia|].
     rewrite E2. destruct (last_w_some pre Hp Hne None) as (wl & Ewl). destruct (last_char_some pre Hp Hne None) as (cl & Ecl).
     rewrite Ewl, Ecl in *. cbn [ow] in E1.
     rewrite iq_run_cons, step_reach by lia. cbn [fst snd].
     rewrite iq_run_cons, step_after. cbn [fst snd spot].
-    replace (idx' + wl) with (cw_sum pre) by lia.
+    replace (idx' + wl) with (items_len pre) by lia.
     destruct xb; cbn [app]; unfold take_width; cbn [iq_lastw iq_index iq_done iq_lvc iq_cands negb rev app]; reflexivity.
 Qed.
 
@@ -762,13 +767,13 @@ Qed.
 Theorem anchor_end_boundary pre b xb n v mid e xe post :
   Forall pos_char pre -> Forall pos_char mid -> mid <> [] ->
   (post = [] \/ exists c w s t, post = IChar c true w s :: t) ->
-  anchor (cw_sum pre + cw_sum mid) (pre ++ IBegin b xb n v :: mid ++ IEnd e xe :: post) =
-  Some (if xe then match last_char mid None with Some l => l | None => head_id end else e, cw_sum pre + cw_sum mid).
+  anchor (items_len pre + items_len mid) (pre ++ IBegin b xb n v :: mid ++ IEnd e xe :: post) =
+  Some (if xe then match last_char mid None with Some l => l | None => head_id end else e, items_len pre + items_len mid).
 Proof.
   intros Hp Hm Hne Hpost. unfold anchor.
-  pose proof (cw_sum_pos mid Hm Hne) as Hpos.
-  replace (cw_sum pre + cw_sum mid =? 0) with false by (symmetry; apply N.eqb_neq; lia). cbv iota.
-  set (T := cw_sum pre + cw_sum mid) in *.
+  pose proof (items_len_pos mid Hm Hne) as Hpos.
+  replace (items_len pre + items_len mid =? 0) with false by (symmetry; apply N.eqb_neq; lia). cbv iota.
+  set (T := items_len pre + items_len mid) in *.
   destruct (walk_chars T pre (IBegin b xb n v :: mid ++ IEnd e xe :: post) 0 None None Hp) as (i1 & E1 & E2);
     [cbn [ow]; lia|].
   rewrite E2. clear E2. cbn [ow] in E1.
@@ -837,7 +842,7 @@ Theorem expand_single_mark_start pre b xb n v c w s rest q wq sq :
   Forall pos_char pre -> 0 < w ->
   NoDup (map item_id (pre ++ [IBegin b xb n v])) -> ~ In head_id (map item_id (pre ++ [IBegin b xb n v])) ->
   let its := pre ++ IBegin b xb n v :: IChar c true w s :: rest in
-  exists r, anchor (cw_sum pre) its = Some (r, cw_sum pre) /\
+  exists r, anchor (items_len pre) its = Some (r, items_len pre) /\
     exists l1 l2, place_item r (IChar q true wq sq) its = l1 ++ IChar q true wq sq :: l2 /\
                   current (final_open l1) = if xb then [(n, v)] else [].
 Proof.
@@ -872,7 +877,7 @@ Theorem expand_single_mark_end pre b xb n v mid e xe post q wq sq :
   NoDup (map item_id (pre ++ IBegin b xb n v :: mid ++ [IEnd e xe])) ->
   ~ In head_id (map item_id (pre ++ IBegin b xb n v :: mid ++ [IEnd e xe])) ->
   let its := pre ++ IBegin b xb n v :: mid ++ IEnd e xe :: post in
-  exists r, anchor (cw_sum pre + cw_sum mid) its = Some (r, cw_sum pre + cw_sum mid) /\
+  exists r, anchor (items_len pre + items_len mid) its = Some (r, items_len pre + items_len mid) /\
     exists l1 l2, place_item r (IChar q true wq sq) its = l1 ++ IChar q true wq sq :: l2 /\
                   current (final_open l1) = if xe then [(n, v)] else [].
 Proof.
@@ -913,23 +918,125 @@ Proof.
       unfold open_begin, open_end. cbn [existsb filter om_id fst]. rewrite He, opid_eqb_refl. cbn. apply current_nil.
 Qed.
 
-(* ------------------------------------------------------------------ get_marks(i) is NOT a reader by text index *)
-(* UTF-8 text e-acute, "a", "b" with bold over [2,3) (the "a"): marks() and the pointwise marking put
-   the mark at text index 2, get_marks answers for index 1 (it counts elements) *)
-Definition refute_ops : list op :=
-  [ mkOp (1, [1]) root_id (KMap [116]) false (AMake OText) [];
-    mkOp (2, [1]) (1, [1]) (KSeq head_id) true (APut (SStr [233])) [];
-    mkOp (3, [1]) (1, [1]) (KSeq (2, [1])) true (APut (SStr [97])) [];
-    mkOp (4, [1]) (1, [1]) (KSeq (3, [1])) true (APut (SStr [98])) [];
-    mkOp (5, [1]) (1, [1]) (KSeq (2, [1])) true (AMarkBegin false [98; 111; 108; 100] (SBool true)) [];
-    mkOp (6, [1]) (1, [1]) (KSeq (3, [1])) true (AMarkEnd false) [] ].
-
-Theorem get_marks_text_index_refuted :
-  exists (e : enc) (ops : list op) (obj : opid) (i : nat),
-    let its := text_view e ops obj in
-    marks its = [(2, 3, [98; 111; 108; 100], SBool true)] /\
-    get_marks its i <> without_unmarks (marks_at_pos its (N.of_nat i)).
+(* ------------------------------------------------------------------ a failed mark produces no op *)
+(* a mark with an anchor past the text is rejected before anything is inserted *)
+Theorem mark_out_of_range_no_op e t obj start end_ n v x :
+  (start =? end_) && x_none x = false ->
+  items_len (text_items e t obj) < start \/ items_len (text_items e t obj) < end_ ->
+  mark_text e t obj start end_ n v x = (t, Some EInvalidIndex).
 Proof.
-  exists EncU8, refute_ops, (1, [1]), 1%nat. split; [vm_compute; reflexivity|].
-  vm_compute. discriminate.
+  intros Hx H. unfold mark_text. rewrite Hx.
+  destruct (items_len (text_items e t obj) <? start) eqn:E1; [reflexivity|].
+  apply N.ltb_ge in E1. replace (items_len (text_items e t obj) <? end_) with true; [reflexivity|].
+  symmetry. apply N.ltb_lt. lia.
+Qed.
+
+(* the insert query always finds an anchor for an index inside (or at the end of) the text *)
+Definition iq_good (q : iq) : Prop :=
+  iq_done q = true /\ ((exists c t, iq_cands q = (c, None) :: t) \/ (iq_cands q = [] /\ iq_lvc q <> None)).
+
+Lemma spot_head c t lvc it : exists c' t', spot ((c, None) :: t) lvc it = (c', None) :: t'.
+Proof.
+  unfold spot. destruct it as [id [|] n v|id ex|id vis w s].
+  - cbn. eauto.
+  - cbn. eauto.
+  - cbn [find_pos snd].
+    destruct (find_pos (fun loc : opid * option opid => match snd loc with Some b => opid_eqb b (opid_prev id) | None => false end) t) as [k|].
+    + cbn. eauto.
+    + destruct ex; cbn; eauto.
+  - cbn. eauto.
+Qed.
+
+Lemma spot_nil_some l it : exists c' t', spot [] (Some l) it = (c', None) :: t'.
+Proof.
+  unfold spot. destruct it as [id [|] n v|id ex|id vis w s].
+  - cbn. eauto.
+  - cbn. eauto.
+  - cbn. destruct ex; cbn; eauto.
+  - cbn. eauto.
+Qed.
+
+Lemma run_after_good T rest : forall idx lvc c t,
+  iq_good (take_width T (iq_run T rest (mkIq idx None true lvc ((c, None) :: t)))).
+Proof.
+  induction rest as [|it rest IH]; intros idx lvc c t.
+  - unfold iq_good, take_width; cbn. split; [reflexivity|left; do 2 eexists; reflexivity].
+  - rewrite iq_run_cons, step_after. cbn [fst snd].
+    destruct (spot_head c t lvc it) as (c' & t' & Es). rewrite Es.
+    destruct it as [id ex n v|id ex|id [|] w s]; try apply IH.
+    unfold iq_good, take_width; cbn. split; [reflexivity|left; do 2 eexists; reflexivity].
+Qed.
+
+Lemma run_before_good T rest : forall idx lw lvc,
+  (lw = None -> idx < T) -> (lw <> None -> lvc <> None) -> T <= idx + ow lw + items_len rest ->
+  iq_good (take_width T (iq_run T rest (mkIq idx lw false lvc []))).
+Proof.
+  induction rest as [|it rest IH]; intros idx lw lvc H1 H2 Hp.
+  - cbn [iq_run items_len] in *. unfold take_width. cbn [iq_lastw iq_index iq_lvc iq_cands].
+    destruct lw as [x|]; cbn [ow] in *; [|specialize (H1 eq_refl); lia].
+    split; [cbn; apply N.leb_le; lia|right; split; [reflexivity|cbn; apply H2; discriminate]].
+  - destruct lw as [x|]; cbn [ow] in *.
+    + destruct (T <=? idx + x) eqn:E.
+      * apply N.leb_le in E. rewrite iq_run_cons, step_reach by exact E. cbn [fst snd].
+        destruct lvc as [l|]; [|exfalso; apply H2; [discriminate|reflexivity]].
+        destruct (spot_nil_some l it) as (c' & t' & Es). rewrite Es.
+        destruct it as [id ex n v|id ex|id [|] w s]; try apply run_after_good.
+        unfold iq_good, take_width; cbn. split; [reflexivity|left; do 2 eexists; reflexivity].
+      * apply N.leb_gt in E. rewrite iq_run_cons.
+        destruct it as [id ex n v|id ex|id [|] w s].
+        -- destruct (step_mark_before T idx (Some x) lvc (IBegin id ex n v) I) as (i' & -> & Es); [cbn [ow]; lia|].
+           rewrite Es. cbn [fst snd]. apply IH; [intros _; cbn [ow]; lia|congruence|cbn [ow items_len] in *; lia].
+        -- destruct (step_mark_before T idx (Some x) lvc (IEnd id ex) I) as (i' & -> & Es); [cbn [ow]; lia|].
+           rewrite Es. cbn [fst snd]. apply IH; [intros _; cbn [ow]; lia|congruence|cbn [ow items_len] in *; lia].
+        -- unfold iq_step, take_width. cbn [iq_lastw iq_index iq_done iq_lvc iq_cands].
+           replace (T <=? idx + x) with false by (symmetry; apply N.leb_gt; lia).
+           cbn [iq_lastw iq_index iq_done iq_lvc iq_cands fst snd].
+           apply IH; [discriminate|discriminate|cbn [ow items_len] in *; lia].
+        -- unfold iq_step, take_width. cbn [iq_lastw iq_index iq_done iq_lvc iq_cands].
+           replace (T <=? idx + x) with false by (symmetry; apply N.leb_gt; lia).
+           cbn [iq_lastw iq_index iq_done iq_lvc iq_cands fst snd].
+           apply IH; [intros _; lia|congruence|cbn [ow items_len] in *; lia].
+    + specialize (H1 eq_refl). rewrite iq_run_cons.
+      destruct it as [id ex n v|id ex|id [|] w s];
+        unfold iq_step, take_width; cbn [iq_lastw iq_index iq_done iq_lvc iq_cands fst snd].
+      * apply IH; [intros _; lia|congruence|cbn [ow items_len] in *; lia].
+      * apply IH; [intros _; lia|congruence|cbn [ow items_len] in *; lia].
+      * apply IH; [discriminate|discriminate|cbn [ow items_len] in *; lia].
+      * apply IH; [intros _; lia|congruence|cbn [ow items_len] in *; lia].
+Qed.
+
+Theorem anchor_total (target : N) (its : list item) :
+  target <= items_len its -> exists r i, anchor target its = Some (r, i).
+Proof.
+  intros H. unfold anchor.
+  assert (G : iq_good (take_width target (iq_run target its
+              (mkIq 0 None (target =? 0) None (if target =? 0 then [(head_id, None)] else []))))).
+  { destruct (target =? 0) eqn:E.
+    - apply run_after_good.
+    - apply N.eqb_neq in E. apply run_before_good; [intros _; lia|congruence|cbn [ow]; lia]. }
+  destruct G as [Gd Gc]. rewrite Gd. cbn [negb].
+  destruct Gc as [(c & t & ->)|[-> Hl]].
+  - destruct (rev ((c, None) :: t)) as [|[c' o] t'] eqn:E; [|eauto].
+    apply (f_equal (@rev _)) in E. rewrite rev_involutive in E. discriminate.
+  - cbn [rev]. destruct (iq_lvc _) as [l|]; [eauto|congruence].
+Qed.
+
+(* ... so a mark that fails leaves the transaction as it was — PARTIAL: under the hypothesis that
+   inserting the begin op (a zero-width element) leaves the length of the text unchanged, a fact about
+   [items_of] over the extended op set that the correspondence harness checks and no theorem here proves *)
+Theorem failed_mark_no_op_partial e t obj start end_ n v x t' er :
+  (forall t1 b, do_insert_m e t obj start (AMarkBegin (x_before x) n v) = EOk (t1, b) ->
+                items_len (text_items e t1 obj) = items_len (text_items e t obj)) ->
+  mark_text e t obj start end_ n v x = (t', Some er) -> t' = t.
+Proof.
+  intros Hlen. unfold mark_text.
+  destruct ((start =? end_) && x_none x); [intros H; inversion H|].
+  destruct (items_len (text_items e t obj) <? start) eqn:E1; [intros H; inversion H; reflexivity|].
+  destruct (items_len (text_items e t obj) <? end_) eqn:E2; [intros H; inversion H; reflexivity|].
+  destruct (do_insert_m e t obj start (AMarkBegin (x_before x) n v)) as [[t1 b]|er'|] eqn:Ed;
+    [|intros H; inversion H; reflexivity|intros H; inversion H; reflexivity].
+  destruct (start =? end_); [intros H; inversion H|].
+  apply N.ltb_ge in E2. rewrite <- (Hlen t1 b eq_refl) in E2.
+  destruct (anchor_total end_ (text_items e t1 obj) E2) as (r & i & Ea). rewrite Ea.
+  destruct (match pos_of (text_items e t1 obj) r with Some pr => _ | None => _ end); intros H; inversion H.
 Qed.
